@@ -113,6 +113,8 @@ struct PmModel {
     if constexpr (!Opt::is_z2) m->set_characteristic(g_p);
   }
   void set_final(bool f) { final_ = f; }
+  const bj::object* expected_ = nullptr;
+  void set_expected(const bj::object& o) { expected_ = &o; }
   bool applicable(const bj::object& act) const {
     std::string op(act.at("op").as_string());
     if (op == "vine_swap") return Opt::has_vine_update;
@@ -122,6 +124,7 @@ struct PmModel {
   }
   bool state_ok(const bj::object&) const { return true; }
   void mask(bj::object& o) const {
+    o.erase("reps_set");  // constrained by membership (observe), not by equality
     if (is_boundary && !final_) { o.erase("bars_set"); o.erase("dims"); }
     if (!Opt::has_column_pairings) o.erase("bars_set");
   }
@@ -279,6 +282,26 @@ struct PmModel {
     for (auto& e : c) sv_add(r, boundary_of(e.first), e.second, g_p);
     return r;
   }
+  // Column `col` of the factor U (B = R.U) of the standard left-to-right reduction of the current filtration over Z2:
+  // the cell itself and the columns used to reduce it.  Only used to recognise the exact wrong value of the known
+  // finding C08-ru-z2-column-of-u (RU_representative_cycles returns this instead of the column of U^-1).
+  std::vector<int> column_of_U(int col) const {
+    int n = static_cast<int>(cells.size());
+    std::vector<SparseVec> R(n);
+    std::map<int, int> piv;
+    std::vector<int> used;
+    for (int j = 0; j < n; ++j) {
+      SparseVec c = boundary_of(j);
+      std::vector<int> src;
+      while (!c.empty() && piv.count(c.rbegin()->first)) { int s = piv[c.rbegin()->first]; sv_add(c, R[s], 1, 2); src.push_back(s); }
+      R[j] = c;
+      if (!c.empty()) piv[c.rbegin()->first] = j;
+      if (j == col) used = src;
+    }
+    used.push_back(col);
+    std::sort(used.begin(), used.end());
+    return used;
+  }
   static bj::array sv_json(const SparseVec& v) {
     bj::array a;
     for (auto& e : v) a.push_back(bj::object{{"x", e.first}, {"c", e.second}});
@@ -389,6 +412,47 @@ struct PmModel {
             if (!okm) failed.push_back("boundary of a paired chain column is not its partner");
           } else if (!bd.empty()) failed.push_back("unpaired / birth chain column is not a cycle");
         }
+      }
+    }
+    // representative cycles (C08): each returned cycle must be one of the representatives the specification allows
+    if constexpr (Opt::can_retrieve_representative_cycles && Opt::has_column_pairings) {
+      if (expected_ && expected_->contains("reps_set")) {
+        m->update_representative_cycles();
+        const auto& all = m->get_representative_cycles();
+        std::multiset<std::vector<int>> allset;
+        // RU cycles list column indices (= positions), chain cycles list row indices (= cell identifiers)
+        auto topos = [&](unsigned r) { return is_chain ? pos_of_row(r) : static_cast<int>(r); };
+        for (auto& cyc : all) { std::vector<int> v; for (auto r : cyc) v.push_back(topos(r)); std::sort(v.begin(), v.end()); allset.insert(v); }
+        std::size_t nbars = 0;
+        for (auto& b : m->get_current_barcode()) {
+          ++nbars;
+          std::vector<int> cyc;
+          for (auto r : m->get_representative_cycle(b)) cyc.push_back(topos(r));
+          std::sort(cyc.begin(), cyc.end());
+          if (!allset.count(cyc)) failed.push_back("get_representative_cycle(bar) is not among get_representative_cycles()");
+          int birth = static_cast<int>(b.birth);
+          bool found_bar = false, ok = false;
+          for (auto& ev : expected_->at("reps_set").as_array()) {
+            const bj::object& e = ev.as_object();
+            if (e.at("birth").to_number<std::int64_t>() != birth) continue;
+            found_bar = true;
+            for (auto& cv : e.at(is_chain ? "ch_set" : "ru_set").as_array()) {
+              std::vector<int> supp;
+              for (auto& x : cv.as_array()) supp.push_back(static_cast<int>(x.as_object().at("x").to_number<std::int64_t>()));
+              std::sort(supp.begin(), supp.end());
+              if (supp == cyc) { ok = true; break; }
+            }
+          }
+          if (found_bar && !ok) {
+            if (!is_chain && Opt::is_z2 && cyc == column_of_U(birth))
+              failed.push_back("RU representative cycle over Z2 is the column of U instead of the column of its inverse");
+            else
+              failed.push_back(std::string("representative cycle of a bar is not a representative (") + (is_chain ? "chain" : "RU") + ")");
+            bj::array ca; for (int x : cyc) ca.push_back(x);
+            o["bad_cycle"] = bj::object{{"birth", birth}, {"cycle", ca}};
+          }
+        }
+        if (all.size() != nbars) failed.push_back("number of representative cycles differs from the number of bars");
       }
     }
     if (g_log_matrices) {
